@@ -213,11 +213,37 @@ def run(ctx, idx):
         tainted = {}
         body_nodes = [n_ for n_ in ast.walk(fn_) if not any(n_ is x_ for g_ in ast.walk(fn_) if isinstance(g_, ast.FunctionDef) and g_ is not fn_ for x_ in ast.walk(g_))]
 
+        def _commented_by_line(e_):
+            """sep.join("# ...{}".format(line) for line in <text>.splitlines()): every line of the text behind its own `#` - a comment
+            ends only at CR / LF, and splitlines() breaks at each of those (and more)"""
+            if not (isinstance(e_, ast.Call) and isinstance(e_.func, ast.Attribute) and e_.func.attr == "join" and isinstance(e_.func.value, ast.Constant) and e_.func.value.value in ("\n", "\r\n")
+                    and len(e_.args) == 1 and isinstance(e_.args[0], (ast.GeneratorExp, ast.ListComp)) and len(e_.args[0].generators) == 1):
+                return False
+            g_ = e_.args[0].generators[0]
+            el_ = e_.args[0].elt
+            if g_.ifs or not (isinstance(g_.iter, ast.Call) and isinstance(g_.iter.func, ast.Attribute) and g_.iter.func.attr == "splitlines" and not g_.iter.args and isinstance(g_.target, ast.Name)):
+                return False
+            if isinstance(el_, ast.Call) and isinstance(el_.func, ast.Attribute) and el_.func.attr == "format" and isinstance(el_.func.value, ast.Constant) and str(el_.func.value.value).startswith("#") \
+                    and "\n" not in str(el_.func.value.value) and len(el_.args) == 1 and isinstance(el_.args[0], ast.Name) and el_.args[0].id == g_.target.id:
+                return True
+            if isinstance(el_, ast.BinOp) and isinstance(el_.op, ast.Add) and isinstance(el_.left, ast.Constant) and str(el_.left.value).startswith("#") and isinstance(el_.right, ast.Name) and el_.right.id == g_.target.id:
+                return True
+            return False
+
         def _free(e_):
-            for x_ in ast.walk(e_):
+            if _commented_by_line(e_):
+                return False
+
+            def _walk(n_):
+                yield n_
+                for ch_ in ast.iter_child_nodes(n_):
+                    if not _commented_by_line(ch_):
+                        for y_ in _walk(ch_):
+                            yield y_
+            for x_ in _walk(e_):
                 if isinstance(x_, ast.Call) and isinstance(x_.func, ast.Name) and x_.func.id in nested_:
                     return False if x_ is e_ else None  # handed to a helper: judged there
-            for x_ in ast.walk(e_):
+            for x_ in _walk(e_):
                 if isinstance(x_, ast.Attribute) and x_.attr in FREE:
                     return True
                 if isinstance(x_, ast.Name) and x_.id in tainted:
